@@ -1,7 +1,10 @@
+import json
 import os
 import re
 import shutil
-from vlib import Check, V, COQ, sh
+import subprocess
+import time
+from vlib import Check, V, COQ, WORK, GOENV, sh
 
 PID = "C17"
 
@@ -36,6 +39,68 @@ def need_counters(c, driver, names):
         if got.get(n, 0) <= 0:
             c.broken.append(dict(kind="coverage", name="driver %s never reached model branch %s" % (driver, n),
                                  detail="counters: %r" % got))
+
+
+def start_driver(c, name, n, shards):
+    """The system drivers spend most of their time WAITING (the server's own 10 s read timeout, observation
+    windows): their binaries are started up front and run while the codec cases are evaluated in Coq.  Only the
+    process runs in the background; all bookkeeping happens in finish_driver on the main thread and is the same
+    as vlib.run_driver's."""
+    if not c.harness_ok:
+        return None
+    out = os.path.join(c.wd, "cases_%s.v" % name)
+    stats = os.path.join(c.wd, "stats_%s.json" % name)
+    cmd = [os.path.join(WORK, "h_" + c.harness_bins[0]), name, "-seed", str(c.seed), "-n", str(n), "-out", out,
+           "-stats", stats, "-tier", c.tier]
+    p = subprocess.Popen(cmd, cwd=V, env=dict(GOENV, VERIF_SHARDS=str(shards)), stdout=subprocess.PIPE, stderr=subprocess.STDOUT)
+    h = dict(name=name, proc=p, stats=stats, t0=time.time(), out=b"", t1=None)
+
+    def waiter():
+        h["out"] = p.communicate()[0] or b""
+        h["t1"] = time.time()
+    import threading
+    h["thread"] = threading.Thread(target=waiter, daemon=True)
+    h["thread"].start()
+    return h
+
+
+def finish_driver(c, h, coq=True, timeout=900):
+    if h is None:
+        return None
+    name, p = h["name"], h["proc"]
+    h["thread"].join(timeout)
+    if h["thread"].is_alive():
+        p.kill()
+        h["thread"].join(10)
+        o, rc = h["out"].decode("utf-8", "replace") + "\n[timeout]", 124
+    else:
+        o, rc = h["out"].decode("utf-8", "replace"), p.returncode
+    dt = (h["t1"] or time.time()) - h["t0"]
+    c.log.write(o)
+    if rc != 0:
+        c.broken.append(dict(kind="driver", name="harness %s" % name, detail=o[-1500:]))
+        c.say("[%s] driver %s failed rc=%d" % (c.pid, name, rc))
+        if "panic:" in o or "fatal error:" in o:
+            c.failures.append(dict(key="driver-crash:%s" % name, what="implementation crashed under driver %s" % name,
+                                   case=o[-1200:], driver=name))
+        return None
+    st = json.load(open(h["stats"]))
+    c.cov["evaluations"] += int(st.get("cases", 0))
+    c.cov["distinct_nontrivial"] += int(st.get("distinct_nontrivial", 0))
+    c.cov["traces_validated_against_impl"] += int(st.get("cases", 0))
+    for s_ in st.get("samples", [])[:4]:
+        c.cov["samples"].append(s_)
+    c.cov["distribution"][name] = st.get("distribution") or st.get("class_distribution") or {}
+    c.cov["drivers"].append(dict(driver=name, cases=st.get("cases", 0), seconds=round(dt, 1),
+                                 extra={k: v for k, v in st.items() if k not in ("samples", "impl_failures", "distribution", "class_distribution")}))
+    for f in st.get("impl_failures", []) or []:
+        if isinstance(f, str):
+            f = dict(key="impl:" + f[:60], what=f, case=f)
+        f.setdefault("driver", name)
+        c.failures.append(f)
+    if coq:
+        c.eval_shards(name)
+    return st
 
 
 def ocaml_volume(c, n):
@@ -92,27 +157,43 @@ def ocaml_volume(c, n):
 
 
 def recipe(c: Check):
-    c.build(["Properties/C17.vo", "Corr/C17.vo", "Corr/C17Sys.vo", "Corr/C17Dgram.vo"], harness=["c17"], units=["t1", "t8a"])
+    c.build(["Properties/C17.vo", "Corr/C17.vo", "Corr/C17Sys.vo", "Corr/C17Dgram.vo"], harness=["c17"], units=["t1", "t8a", "t5v"])
+    # the waiting drivers start now (distinct loopback addresses 127.0.17.1/.2/.4/.6), results are collected below
+    h_first = start_driver(c, "firstbytes", q(c.tier, 300, 3000), q(c.tier, 4, 8))
+    h_loop = start_driver(c, "readloop", q(c.tier, 60, 1500), q(c.tier, 2, 8))
+    h_login = start_driver(c, "loginx", q(c.tier, 2, 150), 1)
+    h_tun = start_driver(c, "tunnels", q(c.tier, 50, 1000), 1)
+    t = time.time()
     c.obligations("C17")
-    st = c.run_driver("codec", q(c.tier, 1500, 24000), shards=q(c.tier, 8, 16),
+    c.say("[C17] obligations pass %.1fs" % (time.time() - t))
+    t = time.time()
+    st = c.run_driver("codec", q(c.tier, 1000, 24000), shards=q(c.tier, 8, 16),
                       extra=os.path.join(V, "golden/msg_vectors.txt"))
     if st:
         for name in st.get("golden_mismatch", []):
             c.failures.append(dict(key="golden-vector:%s" % name, driver="codec",
                                    what="encoding of the pinned %s message differs from the released bytes" % name,
                                    case="golden/msg_vectors.txt entry %s" % name))
-    # system level: first bytes of fresh connections; byte streams on an established control channel
-    if c.run_driver("firstbytes", q(c.tier, 300, 3000), shards=q(c.tier, 4, 8)):
-        need_counters(c, "firstbytes", ["NCLOSENOW", "NCLOSETIMEOUT", "NKEEPOPEN", "NTLSFAIL", "NTLSINNER", "NDISPATCHED"])
-    if c.run_driver("readloop", q(c.tier, 80, 1500), shards=q(c.tier, 2, 8)):
-        need_counters(c, "readloop", ["NENDFRAME", "NENDJSON", "NENDSHORT", "NREAD"])
+    c.say("[C17] codec %.1fs" % (time.time() - t))
+    t = time.time()
     # the NAT-hole datagram decoder (second decoder of the frame format, unauthenticated input)
     if c.run_driver("dgram", q(c.tier, 200, 6000), shards=q(c.tier, 2, 8)):
         need_counters(c, "dgram", ["NDGSHORT", "NDGFRAMEERR", "NDGJSONERR", "NDGOK"])
-    # authenticated Logins with extreme integers as first message, against a frps in a child process
-    if c.run_driver("loginx", q(c.tier, 2, 150), shards=1):
+    c.say("[C17] dgram %.1fs" % (time.time() - t))
+    t = time.time()
+    ocaml_volume(c, q(c.tier, 8000, 200000))
+    c.say("[C17] ocaml %.1fs" % (time.time() - t))
+    t = time.time()
+    # system level: first bytes of fresh connections; byte streams on an established control channel;
+    # authenticated Logins with extreme integers against a frps in a child process; real tunnels
+    if finish_driver(c, h_first):
+        need_counters(c, "firstbytes", ["NCLOSENOW", "NCLOSETIMEOUT", "NKEEPOPEN", "NTLSFAIL", "NTLSINNER", "NDISPATCHED"])
+    if finish_driver(c, h_loop):
+        need_counters(c, "readloop", ["NENDFRAME", "NENDJSON", "NENDSHORT", "NREAD"])
+    if finish_driver(c, h_login):
         need_counters(c, "loginx", ["NLOGINX", "NBELOWSLACK"])
-    ocaml_volume(c, q(c.tier, 4000, 200000))
+    finish_driver(c, h_tun, coq=False)
+    c.say("[C17] system drivers collected %.1fs" % (time.time() - t))
     return c.finish(
         rule="codec driver: half valid messages (all 18 types, reflection-filled: empty/long/unicode strings, nil vs empty maps and "
              "slices, extreme integers, nil/zero/v4/v4-mapped/v6/zoned UDP addresses) through real msg.WriteMsg+ReadMsg, compared with "
@@ -131,6 +212,10 @@ def recipe(c: Check):
              "oversized / overlong lengths, truncated ciphertext, trailing bytes, bad JSON, wrong key, bodies at the bound; compared with "
              "Model.Datagram.dg_decode (cipher and JSON layer as oracles); plus 5 000 EncodeMessage->DecodeMessageInto round trips monitored on "
              "the Go side and UDPPacket contents of 0..20000 bytes through the real udp.ForwardUserConn in a child process. "
+             "tunnels driver (Go-side monitors): two users sending overlapping datagram streams through ONE udp proxy of a real frpc "
+             "(each must get back only its own payloads, none twice); sudp and stcp tunnels between a real owner frpc and a real visitor "
+             "frpc for all four useEncryption x useCompression combinations. dgram also: EncodeMessage/DecodeMessageInto under every key "
+             "length 0..33. "
              "loginx driver: authenticated Login first messages with pool_count in {-1,-10,-11,-1000,MinInt32,MinInt64,MaxInt64,...} and "
              "timestamp extremes (key computed for them) against a frps in a CHILD process; observed: reply, child alive, A's heartbeat "
              "and tunnel; the handler oracle of the model is computed from the NewControl clamp translated today (T8a). "
